@@ -76,7 +76,7 @@ LEVEL_TEXT = ('Call protocol (ItemGrader/AbstractGrader.__call__, create_debuglo
               'event and REFUTED otherwise (half-validated answers stored when post-validation fails; log_created left set '
               'after a failed inference or a non-text input); the full statement is proved of the repaired protocol. The '
               'negative-power switch is proved restored on every exit and history-independent. Frame conditions: finite '
-              'theorems over a regenerated inventory of all 160 write sites of mitxgraders/ (one reviewed defect: '
+              'theorems over a regenerated inventory of every write site of mitxgraders/ (one reviewed defect: '
               'IntervalGrader.__init__ writes into the author dictionary), backed by run-time snapshots.')
 LEVEL_NOTE = ('Protocol theorems: induction over histories with state invariants, oracles universally quantified, no axioms. '
               'Frame part is partial: static inventory + review table + snapshots, no heap model. Trusted: Coq kernel, '
